@@ -2,6 +2,7 @@ package login
 
 import (
 	"encoding/binary"
+	"errors"
 	"fmt"
 	"io"
 	"net"
@@ -91,6 +92,28 @@ func (x *world) connect(id *fix.Identity) (*rawClient, error) {
 	if err := tc.Handshake(); err != nil {
 		ep.Close()
 		return nil, err
+	}
+	// The client's handshake ends with its own last flight: whether the server
+	// admitted it only shows in the server's session table. Looking there saves
+	// the tube time-outs a refused client would otherwise run into; a session
+	// that appears later than the grace period is taken as refused, which can
+	// only reduce what is observed.
+	if cs, ok := tc.VerifSession(); ok {
+		admitted := false
+		for k := 0; k < 60 && !admitted; k++ {
+			for _, ss := range x.w.Server.VerifSessions() {
+				if ss.ID == cs.ID && ss.Established {
+					admitted = true
+				}
+			}
+			if !admitted {
+				time.Sleep(5 * time.Millisecond)
+			}
+		}
+		if !admitted {
+			go func() { tc.Close(); ep.Close() }()
+			return nil, errors.New("server did not admit the client (no session in its table)")
+		}
 	}
 	c := &rawClient{id: id, tc: tc, ep: ep}
 	c.mux = tubes.Client(tc, &tubes.Config{Timeout: 1500 * time.Millisecond, Log: logrus.WithField("muxer", "harness")})
